@@ -76,28 +76,37 @@ impl PathBuf {
     #[verifier::external_body]
     pub fn clone(&self) -> PathBuf { unimplemented!() }
 }
-// a visitor (RepairState, the rewrite visitor ...): arbitrary answers; `reported` remembers whether it ever asked for a change
-pub struct VVisitor { pub reported: Ghost<bool> }
+// a visitor (RepairState, the rewrite visitor ...): arbitrary answers.  Ghost bookkeeping: `reported` remembers whether it
+// ever asked for a change; `dirty` is a stack with one flag per tree level being processed -- set when an answer at that
+// level demands that the tree be rewritten (a node changed / removed / created, a subtree changed or removed)
+pub struct VVisitor { pub reported: Ghost<bool>, pub dirty: Ghost<Seq<bool>> }
+pub open spec fn set_top(s: Seq<bool>, b: bool) -> Seq<bool> { if s.len() == 0 { s } else { s.update(s.len() - 1, s.last() || b) } }
 impl VVisitor {
     #[verifier::external_body]
     pub fn pre_process(&self, path: &PathBuf, id: TreeId) -> (r: ModifierAction)
         ensures r matches ModifierAction::Change(c) ==> (!(c is Unchanged) ==> self.reported@),   // memoised answers stem from earlier reports
     { unimplemented!() }
+    // called once per tree level that is processed: opens the level
     #[verifier::external_body]
     pub fn pre_process_tree(&mut self, tree: RusticResult<Tree>) -> (r: RusticResult<TreeAction>)
         ensures final(self).reported@ == (old(self).reported@ || (r matches Ok(TreeAction::ProcessChangedTree(_)))),
+            r is Ok ==> final(self).dirty@ == old(self).dirty@.push(r matches Ok(TreeAction::ProcessChangedTree(_))),
     { unimplemented!() }
     #[verifier::external_body]
     pub fn process_node(&mut self, path: &PathBuf, node: Node, id: TreeId) -> (r: NodeAction)
-        ensures final(self).reported@ == (old(self).reported@ || (match r { NodeAction::Node(_, ch) => ch, NodeAction::Removed => true, NodeAction::CreateTree(_) => true, NodeAction::VisitTree(_, _, ch) => ch })),
+        ensures ({ let ch = match r { NodeAction::Node(_, ch) => ch, NodeAction::Removed => true, NodeAction::CreateTree(_) => true, NodeAction::VisitTree(_, _, ch) => ch };
+            final(self).reported@ == (old(self).reported@ || ch) && final(self).dirty@ == set_top(old(self).dirty@, ch) }),
     { unimplemented!() }
     #[verifier::external_body]
     pub fn post_process_tree(&mut self, path: PathBuf, tree: TreeId, parent_tree: TreeId, modify_result: ModifierChange) -> (r: ModifierChange)
-        ensures final(self).reported@ == (old(self).reported@ || !(r is Unchanged)),
+        ensures final(self).reported@ == (old(self).reported@ || !(r is Unchanged)), final(self).dirty@ == set_top(old(self).dirty@, !(r is Unchanged)),
     { unimplemented!() }
+    // called once at the end of a processed level: closes it.  OBLIGATION: if an answer at this level demanded a rewrite,
+    // the tree was rebuilt and saved (`rewritten` = the local `changed` flag that guards save_tree)
     #[verifier::external_body]
-    pub fn post_process(&mut self, path: PathBuf, id: TreeId, new_id: Option<TreeId>, tree: &Tree)
-        ensures final(self).reported@ == old(self).reported@,
+    pub fn post_process(&mut self, path: PathBuf, id: TreeId, new_id: Option<TreeId>, tree: &Tree, Ghost(rewritten): Ghost<bool>)
+        requires old(self).dirty@.len() > 0, old(self).dirty@.last() ==> rewritten,
+        ensures final(self).reported@ == old(self).reported@, final(self).dirty@ == old(self).dirty@.drop_last(),
     { unimplemented!() }
 }
 pub struct VBeM { pub _opaque: u64 }
